@@ -1,14 +1,20 @@
-import Spec.Diff
+import Lemmas.Diff.ConvergeSchema
 /-!
 # C06 — autogenerate is quiet on a matching database and converges in one pass (SQLite)
+
+`Model.Diff.diff` mirrors `_compare_tables` and everything below it; `createAll` / `reflect`
+are the SQLite round trip `MetaData.create_all` → inspector.  The theorems quantify over
+**all** schemas of the class (`WF`: names unique per namespace; `SchemaOk cfg`: every column's
+type reflects by name when types are compared, every default is plain when defaults are
+compared), with any number of tables, columns, constraints, and arbitrary type arguments and
+default texts.
 -/
 namespace C06
-open Model.Diff Spec.Diff
+open Model.Diff Spec.Diff Lemmas.Diff
 
 /-! ## types -/
 
-theorem compareType_self (d : DTy) : compareType d d = false := by
-  simp [compareType, typesMatch, argsMatch]
+theorem compareType_self (d : DTy) : compareType d d = false := Lemmas.Diff.compareType_self d
 
 /-- full-strength statement of the type part: a column is never reported as having changed
 its type against the database created from it. -/
@@ -25,10 +31,278 @@ theorem types_quiet_counterexample : ¬ types_quiet_statement := by
 /-- for every type of the catalogue that reflects by name, with arbitrary length / precision /
 scale arguments -/
 theorem types_quiet_partial (t : MdTy) (h : known (ddlTy t) = true) :
-    compareType (reflTy (ddlTy t)) (ddlTy t) = false := by
-  simp [reflTy, h, compareType_self]
+    compareType (reflTy (ddlTy t)) (ddlTy t) = false := compareType_refl_known t h
 
 example : known (ddlTy ⟨.Numeric, [12, 4]⟩) = true := by decide
 example : known (ddlTy ⟨.DOUBLE_PRECISION, []⟩) = false := by decide
+
+/-! ## server defaults (F9) -/
+
+/-- full-strength statement of the default part -/
+def defaults_quiet_statement : Prop :=
+  ∀ d : Dflt, compareDefault (some (reflectDefault d)) (some d) = false
+
+def its : List Char := ['i', 't', '\'', 's']
+
+/-- **F9**: false on the unchanged tree.  `server_default="it's"` is reported as changed against
+the database created from it (the same witness is replayed on the real code on every run). -/
+theorem defaults_quiet_counterexample : ¬ defaults_quiet_statement := by
+  intro h
+  have := h (.str its)
+  revert this
+  decide
+
+/-- further members of the family: empty string, `(abc)`, and the expression `((1))` -/
+example : compareDefault (some (reflectDefault (.str []))) (some (.str [])) = true := by decide
+example : compareDefault (some (reflectDefault (.str ['(', 'a', ')']))) (some (.str ['(', 'a', ')'])) = true := by decide
+example : compareDefault (some (reflectDefault (.expr ['(', '(', '1', ')', ')']))) (some (.expr ['(', '(', '1', ')', ')'])) = true := by decide
+
+/-- every plain default - string (`DefaultsPlain`: non-empty, no `'`, no newline, not `(...)`)
+or expression (unpadded, at most one enclosing pair of parentheses) - of any length compares
+equal to its own reflection -/
+theorem defaults_quiet_partial (d : Dflt) (h : dfltPlain (some d) = true) :
+    compareDefault (some (reflectDefault d)) (some d) = false := by
+  have := compareDefault_quiet (some d) h
+  simpa [reflectDefault] using this
+
+example : dfltPlain (some (.str ['a', ' ', 'b'])) = true := by decide
+example : dfltPlain (some (.expr ['(', '1', ' ', '+', ' ', '2', ')'])) = true := by decide
+example : dfltPlain (some (.str its)) = false := by decide
+
+/-! ## quiet -/
+
+theorem reflect_names (a : Schema) : (reflect (createAll a)).map (·.name) = a.map (·.name) := by
+  simp [reflect, createAll, List.map_map, Function.comp_def, reflectTable, createTable]
+
+/-- full-strength statement: `diff (reflect (db A)) A = []` for every well-formed schema and
+every compare_type / compare_server_default setting -/
+def quiet_statement : Prop :=
+  ∀ (cfg : Cfg) (a : Schema), WF a → diff cfg (reflect (createAll a)) a = []
+
+def witness : Schema :=
+  [{ name := "t", cols := [{ name := "c", ty := ⟨.String, [20]⟩, nullable := true, dflt := some (.str its) }] }]
+
+theorem witness_wf : WF witness := by
+  constructor
+  · simp [witness]
+  · intro t ht
+    simp [witness] at ht
+    subst ht
+    constructor <;> simp [namedNames, namedOf]
+
+theorem witness_diff : diff {} (reflect (createAll witness)) witness = [Op.modifyDefault "t" "c" (some (.str its))] := by
+  have h : compareDefault (some (reflectDefault (.str its))) (some (.str its)) = true := by decide
+  simp [diff, witness, reflect, createAll, createTable, reflectTable, findTable, sortTablesByName, compareTable,
+    addedCols, alteredCols, removedCols, compareIxUq, compareFks, namedOf, createCol, reflectCol, findRCol,
+    compareCol, sortNames, Lemmas.Diff.compareType_self, reflTy, known, knownName, ddlTy, h, reflectDefault] at *
+
+/-- **F9 at schema level**: a one-table model with `server_default="it's"` is not quiet -/
+theorem quiet_counterexample : ¬ quiet_statement := by
+  intro h
+  have := h {} witness witness_wf
+  rw [witness_diff] at this
+  cases this
+
+/-- **C06.quiet** for the class: every well-formed schema whose columns are in the class for
+the chosen settings yields an empty diff against the database created from it. -/
+theorem quiet_partial (cfg : Cfg) (a : Schema) (hwf : WF a) (hok : SchemaOk cfg a) :
+    diff cfg (reflect (createAll a)) a = [] := by
+  unfold diff
+  rw [reflect_names]
+  have h1 : a.filter (fun t => !(a.map (·.name)).contains t.name) = [] := by
+    apply filter_nil_of_forall
+    intro t ht
+    simp only [contains_of_mem _ _ (List.mem_map_of_mem (f := (·.name)) ht), Bool.not_true]
+  have h2 : (reflect (createAll a)).filter (fun t => !(a.map (·.name)).contains t.name) = [] := by
+    apply filter_nil_of_forall
+    intro t ht
+    have : t.name ∈ (reflect (createAll a)).map (·.name) := List.mem_map_of_mem (f := (·.name)) ht
+    rw [reflect_names] at this
+    simp only [contains_of_mem _ _ this, Bool.not_true]
+  simp only [h1, h2, List.flatMap_nil, List.nil_append]
+  apply flatMap_nil_of_forall
+  intro p hp
+  have hp' := by unfold sortTablesByName at hp; exact List.mem_mergeSort.mp hp
+  obtain ⟨ct, hct, hfm⟩ := List.mem_filterMap.mp hp'
+  simp only [reflect, createAll, List.map_map, List.mem_map, Function.comp_apply] at hct
+  obtain ⟨t0, ht0, rfl⟩ := hct
+  have hfind : findTable a (reflectTable (createTable t0)).name = some t0 := by
+    unfold findTable
+    exact find?_key_of_nodup (·.name) a hwf.tables_nodup t0 ht0
+  rw [hfind] at hfm
+  simp only [Option.map_some, Option.some.injEq] at hfm
+  subst hfm
+  exact compareTable_self cfg t0 (hwf.table_wf t0 ht0).cols_nodup (hok t0 ht0)
+
+/-- the class is not empty and contains non-trivial members -/
+example : WF witness := witness_wf
+
+end C06
+
+/-! ## converge -/
+namespace C06
+open Model.Diff Spec.Diff Lemmas.Diff
+
+/-- full-strength statement of the second sentence of C06: for every pair of well-formed
+schemas, run the autogenerated upgrade against the database of the first; a second autogenerate
+against the second reports nothing -/
+def converge_statement : Prop :=
+  ∀ (cfg : Cfg) (a b : Schema), WF a → WF b →
+    diff cfg (reflect (applyAll (createAll a) (diff cfg (reflect (createAll a)) b))) b = []
+
+/-- **F9 again**: it is false on the unchanged tree - with `server_default="it's"` the upgrade
+re-sets the default and the second autogenerate reports the column again -/
+theorem converge_counterexample : ¬ converge_statement := by
+  intro h
+  have := h {} witness witness witness_wf witness_wf
+  rw [witness_diff] at this
+  have happ : applyAll (createAll witness) [Op.modifyDefault "t" "c" (some (.str its))] = createAll witness := by
+    simp [applyAll, apply, updTable, updCol, createAll, createTable, createCol, witness]
+  rw [happ, witness_diff] at this
+  cases this
+
+/-- a one-column table holding column `c` -/
+def oneCol (t : String) (c : DCol) : Db := [{ name := t, cols := [c] }]
+
+/-- the column after the upgrade, field by field -/
+def afterCol (cfg : Cfg) (a : DCol) (b : Col) : DCol :=
+  { name := a.name
+    ty := if cfg.compareType && compareType (reflTy a.ty) (ddlTy b.ty) then ddlTy b.ty else a.ty
+    nullable := if a.nullable != b.nullable then b.nullable else a.nullable
+    dflt := if cfg.compareDefault && compareDefault (a.dflt.map autogenReflect) b.dflt
+            then b.dflt.map (fun v => sqliteStore (ddlDefault v)) else a.dflt
+    pk := a.pk }
+
+/-- **one pass is enough, column level**: take *any* database column `a` (any type, any
+nullability, any default - plain or not) and any model column `b` of the class with the same
+name; apply the alter ops autogenerate emits for the pair; comparing the resulting column
+with `b` again yields nothing - for every compare_type / compare_server_default setting. -/
+theorem converge_column (cfg : Cfg) (t : String) (a : DCol) (b : Col) (hn : a.name = b.name)
+    (hb : colOk cfg b = true) :
+    ∃ a' : DCol, applyAll (oneCol t a) (compareCol cfg t (reflectCol a) b) = oneCol t a' ∧
+      compareCol cfg t (reflectCol (afterCol cfg a b)) b = [] := by
+  simp only [colOk, Bool.and_eq_true, Bool.or_eq_true, Bool.not_eq_true'] at hb
+  obtain ⟨hty, hdf⟩ := hb
+  refine ⟨afterCol cfg a b, ?_, ?_⟩
+  · simp only [compareCol, reflectCol, afterCol, oneCol]
+    by_cases h1 : (cfg.compareType && compareType (reflTy a.ty) (ddlTy b.ty)) = true <;>
+    by_cases h2 : (a.nullable != b.nullable) = true <;>
+    by_cases h3 : (cfg.compareDefault && compareDefault (a.dflt.map autogenReflect) b.dflt) = true <;>
+    simp [h1, h2, h3, applyAll, apply, updTable, updCol, hn] <;>
+    (cases a; simp_all)
+  · have e1 : (cfg.compareType && compareType (reflectCol (afterCol cfg a b)).ty (ddlTy b.ty)) = false := by
+      simp only [reflectCol, afterCol]
+      by_cases h1 : (cfg.compareType && compareType (reflTy a.ty) (ddlTy b.ty)) = true
+      · simp only [h1, if_true]
+        rcases hty with h | h
+        · simp [h] at h1
+        · simp [compareType_refl_known b.ty h]
+      · simp only [h1]
+        simpa using h1
+    have e2 : ((reflectCol (afterCol cfg a b)).nullable != b.nullable) = false := by
+      simp only [reflectCol, afterCol]
+      by_cases h2 : (a.nullable != b.nullable) = true
+      · simp [h2]
+      · simp only [h2]; simpa using h2
+    have e3 : (cfg.compareDefault && compareDefault (reflectCol (afterCol cfg a b)).dflt b.dflt) = false := by
+      simp only [reflectCol, afterCol]
+      by_cases h3 : (cfg.compareDefault && compareDefault (a.dflt.map autogenReflect) b.dflt) = true
+      · simp only [h3, if_true]
+        rcases hdf with h | h
+        · simp [h] at h3
+        · simp only [compareDefault_quiet b.dflt h, Bool.and_false]
+      · simp only [h3]
+        simpa using h3
+    simp only [compareCol, e1, e2, e3]
+    rfl
+
+/-- non-vacuity: a VARCHAR(10) NULL column against `Integer NOT NULL DEFAULT 'abc'` needs all
+three alterations -/
+example : (compareCol {} "t" (reflectCol { name := "c", ty := ⟨.varchar, [], [10]⟩, nullable := true })
+    { name := "c", ty := ⟨.Integer, []⟩, nullable := false, dflt := some (.str ['a', 'b', 'c']) }).length = 3 := by
+  decide
+
+end C06
+
+namespace C06
+open Model.Diff Spec.Diff Lemmas.Diff
+
+/-- **C06.converge** for the class: for every pair of well-formed schemas `a`, `b` (any sizes)
+with `b` in the class for the chosen settings (`a` is arbitrary: its types and defaults need not
+be plain), run the autogenerated upgrade `diff (reflect (db a)) b` against `db a`; a second
+autogenerate against `b` reports nothing.  For every compare_type / compare_server_default
+setting. -/
+theorem converge_partial (cfg : Cfg) (a b : Schema) (hwfA : WF a) (hwfB : WF b) (hok : SchemaOk cfg b) :
+    diff cfg (reflect (applyAll (createAll a) (diff cfg (reflect (createAll a)) b))) b = [] := by
+  have hT := tblOf_final cfg a b hwfA hwfB
+  have hN := names_final_nodup cfg a b hwfA hwfB
+  generalize applyAll (createAll a) (diff cfg (reflect (createAll a)) b) = D at hT hN ⊢
+  have hDn : (reflect D).map (·.name) = D.map (·.name) := by
+    simp [reflect, List.map_map, Function.comp_def, reflectTable]
+  have hsome_mem : ∀ n x, tblOf D n = some x → n ∈ D.map (·.name) := by
+    intro n x h
+    unfold tblOf at h
+    exact List.mem_map.mpr ⟨x, List.mem_of_find?_eq_some h, by simpa using List.find?_some h⟩
+  unfold diff
+  rw [hDn]
+  -- no table to create
+  have h1 : b.filter (fun t => !(D.map (·.name)).contains t.name) = [] := by
+    apply filter_nil_of_forall
+    intro tb htb
+    have hf : findTable b tb.name = some tb := (findTable_some_iff b hwfB.tables_nodup _ _).mpr ⟨htb, rfl⟩
+    have := hT tb.name
+    rw [hf] at this
+    simp only [contains_of_mem _ _ (hsome_mem _ _ this), Bool.not_true]
+  -- no table to drop
+  have h2 : (reflect D).filter (fun t => !(b.map (·.name)).contains t.name) = [] := by
+    apply filter_nil_of_forall
+    intro rt hrt
+    simp only [reflect, List.mem_map] at hrt
+    obtain ⟨dt, hdt, rfl⟩ := hrt
+    have hfd : tblOf D dt.name = some dt := find?_key_of_nodup (fun x : DTable => x.name) D hN dt hdt
+    have := hT dt.name
+    rw [hfd] at this
+    cases hb : findTable b dt.name with
+    | none => rw [hb] at this; cases this
+    | some tb =>
+      have hmem := (findTable_some_iff b hwfB.tables_nodup _ _).mp hb
+      have : dt.name ∈ b.map (·.name) := hmem.2 ▸ List.mem_map_of_mem (f := (·.name)) hmem.1
+      show (!(b.map (·.name)).contains dt.name) = false
+      simp only [contains_of_mem _ _ this, Bool.not_true]
+  simp only [h1, h2, List.flatMap_nil, List.nil_append]
+  -- every remaining table compares equal
+  apply flatMap_nil_of_forall
+  intro p hp
+  have hp' := by unfold sortTablesByName at hp; exact List.mem_mergeSort.mp hp
+  obtain ⟨rt, hrt, hfm⟩ := List.mem_filterMap.mp hp'
+  simp only [reflect, List.mem_map] at hrt
+  obtain ⟨dt, hdt, rfl⟩ := hrt
+  have hfd : tblOf D dt.name = some dt := find?_key_of_nodup (fun x : DTable => x.name) D hN dt hdt
+  have hTn := hT dt.name
+  rw [hfd] at hTn
+  have hname : (reflectTable dt).name = dt.name := rfl
+  rw [hname] at hfm
+  cases hb : findTable b dt.name with
+  | none => rw [hb] at hTn; cases hTn
+  | some tb =>
+    rw [hb] at hfm hTn
+    simp only [Option.map_some, Option.some.injEq] at hfm hTn
+    subst hfm
+    have htb := (findTable_some_iff b hwfB.tables_nodup _ _).mp hb
+    have hwt := hwfB.table_wf tb htb.1
+    cases ha : findTable a dt.name with
+    | some ta =>
+      rw [ha] at hTn
+      simp only at hTn
+      rw [hTn]
+      have hta := (findTable_some_iff a hwfA.tables_nodup _ _).mp ha
+      have hwa := hwfA.table_wf ta hta.1
+      exact converge_table cfg (createTable ta) tb hwt.cols_nodup (hok tb htb.1) hwa.named_nodup hwt.named_nodup
+        hwa.fk_names_nodup
+    | none =>
+      rw [ha] at hTn
+      simp only at hTn
+      rw [hTn]
+      exact newTable_quiet cfg tb hwt.cols_nodup (hok tb htb.1) hwt.named_nodup
 
 end C06
